@@ -536,13 +536,13 @@ def _():
                             "idxs_out": rng.random() < 0.25, "direction": rng.choice(["up", "down"])}, call)
 
 
-@op("upscale", classes=R, group="upscale", variants=2)
+@op("upscale", classes=R, group="upscale", variants=5)
 def _():
     def call(W, a):
         if W.shape[0] * W.shape[1] < 4 or -(-W.shape[0] // a["s"]) * -(-W.shape[1] // a["s"]) < 2:
             return "skipped-too-small"
         up = W.uparea_distinct() if a["own"] else None
-        kw = {"r_ratio": a["r_ratio"]} if a.get("r_ratio") is not None and a["method"] in ("ihu", "eam_plus", "eam") else {}
+        kw = {"r_ratio": a["r_ratio"]} if a.get("r_ratio") is not None and a["method"] in ("ihu", "eam") else {}
         flw1, idxs_out = W.flw.upscale(a["s"], method=a["method"], uparea=up, **kw)
         err = W.flw.upscale_error(flw1, idxs_out)
         return flw1.idxs_ds, idxs_out, err, flw1.shape
